@@ -274,7 +274,12 @@ func (ex *Exec) verifyFunc(fn *ssa.Function, c *Contract) {
 				ex.errors = append(ex.errors, fmt.Sprintf("ensures %s: %v", e.Label, err))
 				continue
 			}
+			n0 := len(st2.script)
 			ex.check(st2, fr0, "post", e.Label, t, e.Props, e.Text, e.Src)
+			if len(st2.script) > n0 && st2.script[len(st2.script)-1].Check != nil {
+				// postconditions of one exit are decided independently
+				st2.script[len(st2.script)-1].Check.NoAssume = true
+			}
 		}
 		ex.endPath(st2, "ret")
 	})
